@@ -1,3 +1,4 @@
+import Regatta.Extracted.Facts
 import Regatta.Proofs.MetaCat
 /-
   C14 — Table catalogue: unique names, never-reused ids, empty when (re)created.
@@ -17,20 +18,20 @@ theorem c14_invariant (evs : List Ev) : SeqInv (System.run {} evs) := seqInv_run
 
 /-- **ids are never reused**: in every reachable state the ids handed out so far are strictly
 increasing in the order they were handed out, and all lie beyond the reserved range — whatever
-creations, deletions, re-creations and lease traffic were interleaved -/
+creations, deletions, re-creations, restores and lease traffic were interleaved -/
 theorem c14_ids_increasing (evs : List Ev) :
     (System.run {} evs).w.issued.Pairwise (· < ·) ∧ ∀ i ∈ (System.run {} evs).w.issued, tableIDsRangeStart < i :=
   ⟨(c14_invariant evs).inc, (c14_invariant evs).gt⟩
 
 /-- … and at the moment an id is handed out it is greater than every id assigned before: when the
-sequence write of a pending creation succeeds, the id it returns exceeds all ids in the history -/
-theorem c14_fresh_id (evs : List Ev) (id : Nat) (name : String) (cur ver : Nat)
-    (hmem : (id, Call.createSetSeq name cur ver) ∈ (System.run {} evs).calls) (newId : Nat)
-    (hok : ((System.run {} evs).w.step (.createSetSeq name cur ver)).2 = .createSetRec name newId) :
+sequence write of a pending creation or restore succeeds (`k` says which), the id it returns exceeds all ids in the history -/
+theorem c14_fresh_id (evs : List Ev) (id : Nat) (name : String) (cur ver : Nat) (k : Purpose)
+    (hmem : (id, Call.createSetSeq name cur ver k) ∈ (System.run {} evs).calls) (newId : Nat)
+    (hok : ((System.run {} evs).w.step (.createSetSeq name cur ver k)).2 = afterSeq name newId k) :
     ∀ i ∈ (System.run {} evs).w.issued, i < newId := by
   have hinv := c14_invariant evs
   generalize System.run {} evs = s at *
-  obtain ⟨_, _, h3, h4⟩ : SeqOK s.w (.createSetSeq name cur ver) := hinv.calls _ hmem
+  obtain ⟨_, _, h3, h4⟩ : SeqOK s.w (.createSetSeq name cur ver k) := hinv.calls _ hmem
   rcases applyUpd_cases s.w.store s.w.index ⟨.set, sequenceKey, .seq (cur + 1), ver⟩ with ⟨he, hv⟩ | ⟨p, _, _, he⟩
   · have hcur : curSeq s.w = cur := by
       unfold curSeq
@@ -41,12 +42,15 @@ theorem c14_fresh_id (evs : List Ev) (id : Nat) (name : String) (cur ver : Nat)
         obtain ⟨k, v, vr⟩ := p
         simp only at hpv; subst hpv; rfl
     simp only [World.step, World.propose, he, applyOp] at hok
-    injection hok with _ hid
+    have hid : cur + 1 = newId := by
+      cases k with
+      | create => simp only [afterSeq] at hok; injection hok
+      | restore t v => simp only [afterSeq] at hok; injection hok
     intro i hi
     have := hinv.le i hi
     omega
   · simp only [World.step, World.propose, he] at hok
-    cases hok
+    cases k <;> simp [afterSeq] at hok
 
 /-- the key layout and limits the catalogue model uses are the current source's (constants
 regenerated on every run) -/
@@ -84,13 +88,13 @@ theorem c14_untouched_preserved (d : ShardData) (issued : List Nat) (h : Untouch
 restored one's recovery shard**: the id a creation (or `Restore`, which draws from the same sequence)
 receives is greater than every id handed out before (`c14_fresh_id`), hence was never handed out,
 hence holds nothing; the old incarnation's data sits under the old id -/
-theorem c14_new_table_empty (evs : List Ev) (id : Nat) (name : String) (cur ver : Nat)
-    (hmem : (id, Call.createSetSeq name cur ver) ∈ (System.run {} evs).calls) (newId : Nat)
-    (hok : ((System.run {} evs).w.step (.createSetSeq name cur ver)).2 = .createSetRec name newId)
+theorem c14_new_table_empty (evs : List Ev) (id : Nat) (name : String) (cur ver : Nat) (k : Purpose)
+    (hmem : (id, Call.createSetSeq name cur ver k) ∈ (System.run {} evs).calls) (newId : Nat)
+    (hok : ((System.run {} evs).w.step (.createSetSeq name cur ver k)).2 = afterSeq name newId k)
     (d : ShardData) (hd : Untouched d (System.run {} evs).w.issued) : d newId = [] := by
   apply hd
   intro hin
-  have := c14_fresh_id evs id name cur ver hmem newId hok newId hin
+  have := c14_fresh_id evs id name cur ver k hmem newId hok newId hin
   omega
 
 /-- **operations on one table never change the content of another** -/
@@ -217,5 +221,142 @@ example :
     (s.calls.map (fun c => (c.1, match c.2 with
       | .doneTable t => t.clusterID | .doneErr .tableExists => 1 | .doneOk => 2 | _ => 0)))
       = [(4, 10003), (3, 2), (2, 1), (1, 10001)] := by decide
+
+end Regatta.Props.C14
+
+namespace Regatta.Props.C14
+open Regatta.Meta
+
+/-! ### Restore: the store calls of `Manager.Restore` (storage/table/manager.go)
+
+`getTableVersion` (a missing record is not an error), `incAndGetIDSeq` (the same two store calls as
+for a creation: `c14_fresh_id` / `c14_new_table_empty` are stated for both purposes), then the record
+is marked with the recovery shard, the stream is loaded into that shard (no store call), the record
+is read again and switched to the recovery shard.  The shape of the function in the current source
+is a regenerated fact (`c14_restore_shape_matches_source`). -/
+
+/-- an invalid name is refused before any store call; otherwise the id sequence is asked, with the
+record that was read - or the zero record at version 0 when there is none - kept for later -/
+theorem c14_restore_start (w : World) (name : String) :
+    (validTableName name = false → w.step (.restoreStart name) = (w, .doneErr .invalidName)) ∧
+    (validTableName name = true → w.store.get? (tableKey name) = none →
+      w.step (.restoreStart name) = (w, .createGetSeq name (.restore ⟨"", 0, 0⟩ 0))) ∧
+    (validTableName name = true → ∀ k t ver, w.store.get? (tableKey name) = some ⟨k, .table t, ver⟩ →
+      w.step (.restoreStart name) = (w, .createGetSeq name (.restore t ver))) := by
+  refine ⟨fun h => ?_, fun h hn => ?_, fun h k t ver hs => ?_⟩ <;> simp [World.step, *]
+
+/-- **while the stream is loaded the table keeps serving from its old shard**: the first record write
+of a restore keeps the cluster id that was read and only adds the recovery shard; it is a compare-and-set
+on the version read at the start, so a record that changed in between (another restore's mark, a
+deletion and re-creation) refuses it and nothing is written -/
+theorem c14_restore_mark (w : World) (name : String) (tbl : Table) (tver id : Nat) :
+    (∀ cur, w.store.get? (tableKey name) = some cur → cur.ver ≠ tver →
+      (w.step (.restoreMark name tbl tver id)).2 = .doneErr .versionMismatch ∧
+      (w.step (.restoreMark name tbl tver id)).1.store = w.store) ∧
+    ((∀ cur, w.store.get? (tableKey name) = some cur → cur.ver = tver) →
+      (w.step (.restoreMark name tbl tver id)).2 = .restoreReread name id ∧
+      (w.step (.restoreMark name tbl tver id)).1.store.get? (tableKey name) =
+        some ⟨tableKey name, .table ⟨name, tbl.clusterID, id⟩, w.index⟩) := by
+  constructor
+  · intro cur hc hne
+    simp only [World.step, World.propose]
+    rw [(applyUpd_existing w.store w.index ⟨.set, tableKey name, .table ⟨name, tbl.clusterID, id⟩, tver⟩ cur hc).1 hne]
+    exact ⟨rfl, rfl⟩
+  · intro hv
+    simp only [World.step, World.propose]
+    cases hg : w.store.get? (tableKey name) with
+    | none =>
+      rw [(applyUpd_absent w.store w.index ⟨.set, tableKey name, .table ⟨name, tbl.clusterID, id⟩, tver⟩ hg).1 rfl]
+      exact ⟨rfl, get?_put_same _ _⟩
+    | some cur =>
+      rw [(applyUpd_existing w.store w.index ⟨.set, tableKey name, .table ⟨name, tbl.clusterID, id⟩, tver⟩ cur hg).2.1
+        (hv cur hg) rfl]
+      exact ⟨rfl, get?_put_same _ _⟩
+
+/-- **a restore that completes has switched the table to ITS OWN shard**: the final record write
+names the id this call drew from the sequence - not whatever recovery shard the record carries by
+then (a second, overlapping restore may have marked the record with its shard in the meantime) - and
+clears the recovery id; it too is a compare-and-set on the version just read -/
+theorem c14_restore_switch (w : World) (name : String) (id : Nat) (tbl : Table) (ver : Nat) (cur : Pair CVal)
+    (hc : w.store.get? (tableKey name) = some cur) :
+    (cur.ver = ver →
+      (w.step (.restoreSwitch name id tbl ver)).2 = .doneOk ∧
+      (w.step (.restoreSwitch name id tbl ver)).1.store.get? (tableKey name) =
+        some ⟨tableKey name, .table ⟨tbl.name, id, 0⟩, w.index⟩) ∧
+    (cur.ver ≠ ver →
+      (w.step (.restoreSwitch name id tbl ver)).2 = .doneErr .versionMismatch ∧
+      (w.step (.restoreSwitch name id tbl ver)).1.store = w.store) := by
+  constructor
+  · intro hv
+    simp only [World.step, World.propose]
+    rw [(applyUpd_existing w.store w.index ⟨.set, tableKey name, .table ⟨tbl.name, id, 0⟩, ver⟩ cur hc).2.1 hv rfl]
+    exact ⟨rfl, get?_put_same _ _⟩
+  · intro hne
+    simp only [World.step, World.propose]
+    rw [(applyUpd_existing w.store w.index ⟨.set, tableKey name, .table ⟨tbl.name, id, 0⟩, ver⟩ cur hc).1 hne]
+    exact ⟨rfl, rfl⟩
+
+/-- the record of a table, as the catalogue shows it -/
+def recordOf (s : System) (name : String) : Option Table :=
+  match s.w.store.get? (tableKey name) with
+  | some ⟨_, .table t, _⟩ => some t
+  | _ => none
+
+/-- a restore on its own: of a table that exists (created first) - the table moves from its shard to a
+fresh one; of a name that does not exist - the table comes into being on a fresh shard -/
+example :
+    let s := System.run {} [.start 1 (.createStart "t"), .sched 1, .sched 1, .sched 1, .sched 1,
+      .start 2 (.restoreStart "t"), .sched 2, .sched 2, .sched 2, .sched 2, .sched 2, .sched 2,
+      .start 3 (.restoreStart "u"), .sched 3, .sched 3, .sched 3, .sched 3, .sched 3, .sched 3]
+    recordOf s "t" = some ⟨"t", tableIDsRangeStart + 2, 0⟩ ∧ recordOf s "u" = some ⟨"u", tableIDsRangeStart + 3, 0⟩ ∧
+    s.w.issued = [tableIDsRangeStart + 1, tableIDsRangeStart + 2, tableIDsRangeStart + 3] ∧
+    (s.calls.map (·.2.isDone)).all id = true := by
+  decide +kernel
+
+/-- **two overlapping restores of one table**: the second starts after the first has marked the
+record and is itself still loading when the first completes - the first leaves the table on the
+first's shard (while the record shows the second's recovery shard being loaded), the second then
+moves it to the second's shard; both return without error.  (With `ClusterID := record's RecoverID`
+instead of the call's own id - seeded change C07-c - the first would have put the table on the
+second's half-loaded shard.) -/
+example :
+    let pre := [Ev.start 1 (.createStart "t"), .sched 1, .sched 1, .sched 1, .sched 1,
+      .start 2 (.restoreStart "t"), .sched 2, .sched 2, .sched 2, .sched 2,     -- first: marked, loading
+      .start 3 (.restoreStart "t"), .sched 3, .sched 3, .sched 3, .sched 3]      -- second: marked, loading
+    let mid := System.run {} (pre ++ [.sched 2, .sched 2])                        -- first: re-read, switch
+    let fin := System.run {} (pre ++ [.sched 2, .sched 2, .sched 3, .sched 3])    -- second: re-read, switch
+    recordOf mid "t" = some ⟨"t", tableIDsRangeStart + 2, 0⟩ ∧
+    recordOf fin "t" = some ⟨"t", tableIDsRangeStart + 3, 0⟩ ∧
+    (fin.calls.map (·.2)).all (fun c => match c with | .doneOk | .doneTable _ => true | _ => false) = true := by
+  decide +kernel
+
+end Regatta.Props.C14
+
+namespace Regatta.Props.C14
+
+/-- **the restore steps of the model are those of the current source**: `Manager.Restore`, read with
+go/parser on every run - its calls on the manager and its writes to the table record, in source
+order.  The model's calls transcribe them one by one: `restoreStart` = the name check and the first
+`getTableVersion`; `createGetSeq` / `createSetSeq` (purpose `restore`) = `incAndGetIDSeq`;
+`restoreMark` = `Name := name`, `RecoverID := recoveryID`, `setTableVersion(tbl, version)` (the shard
+start before it and the wait and the load after it make no store call); `restoreReread` = the second
+`getTableVersion`; `restoreSwitch` = `ClusterID := recoveryID` - the id this call drew, not the
+record's -, `RecoverID := 0`, `setTableVersion(tbl, version)`. -/
+theorem c14_restore_shape_matches_source :
+    Regatta.Extracted.restoreShape =
+      ["call validTableName(name)",
+       "tbl,version,err <- m.getTableVersion(name)",
+       "recoveryID,err <- m.incAndGetIDSeq()",
+       "set tbl.Name = name",
+       "set tbl.RecoverID = recoveryID",
+       "err <- m.startTable(tbl.Name, tbl.RecoverID)",
+       "err <- m.setTableVersion(tbl, version)",
+       "err <- m.waitForLeader(tbl.RecoverID)",
+       "err <- m.readIntoTable(tbl.RecoverID, reader)",
+       "tbl,version,err <- m.getTableVersion(name)",
+       "set tbl.ClusterID = recoveryID",
+       "set tbl.RecoverID = 0",
+       "err <- m.setTableVersion(tbl, version)"] := by
+  decide
 
 end Regatta.Props.C14
